@@ -835,6 +835,9 @@ def main_replay(path):
 if __name__ == "__main__":
     if len(sys.argv) == 3 and sys.argv[1] == "replay":
         sys.exit(main_replay(sys.argv[2]))
+    if len(sys.argv) == 2 and sys.argv[1] == "build":
+        build_extension()
+        sys.exit(0)
     if len(sys.argv) == 2 and sys.argv[1] in ("quick", "thorough"):
         sys.exit(main_check(sys.argv[1]))
     sys.stderr.write("usage: c30.py <quick|thorough> | c30.py replay <path>\n")
